@@ -1,0 +1,31 @@
+//go:build verif
+
+// Package simhook contains seams for the deterministic simulation harness in
+// /verif. With the "verif" build tag the harness can pin the session checksum
+// seed (which otherwise depends on the time and the process id, making wire
+// bytes differ between the run that found a failure and its replay) and hand
+// the daemon simulated listeners instead of real sockets.
+package simhook
+
+import "net"
+
+var (
+	// SeedFunc, if non-nil, replaces the session checksum seed.
+	SeedFunc func(v int32) int32
+	// ListenersFunc, if non-nil, replaces the (systemd) listeners.
+	ListenersFunc func(l []net.Listener) []net.Listener
+)
+
+func Seed(v int32) int32 {
+	if SeedFunc != nil {
+		return SeedFunc(v)
+	}
+	return v
+}
+
+func Listeners(l []net.Listener) []net.Listener {
+	if ListenersFunc != nil {
+		return ListenersFunc(l)
+	}
+	return l
+}
